@@ -257,4 +257,49 @@ def toValueRaw (fmt : String) (sizebase : Nat) (v : DV) : Res Rendered :=
 def toValueRange (unit : Nat) (fmt : String) (sizebase : Nat) (v : DV) : Res Rendered :=
   (toBitsOp unit 0 true v).bind fun b => b.toReader.bind (render fmt sizebase)
 
+/-! ## rendering a whole (sub)tree: decode.go:306 `toValue` = gojqx.ToGoJQValueFn over the value,
+   calling JQValueToGoJQEx(optsFn) on every decode value it meets, with ONE Options value
+   (hence one BitsFormatFn closure) for the whole conversion.  The closure of interp.go:1079 keeps
+   no state between calls (each case allocates its hasher / buffer / encoder inside the closure),
+   so the rendering of a raw leaf is a function of that leaf alone.  The tree is modelled with
+   `cons`/`nil` for the sequence of children of a struct or array. -/
+
+inductive VTree where
+  | raw (v : DV)          -- a raw-bits scalar (decodeValue.isRaw)
+  | other                 -- any other scalar: rendered without bits_format
+  | nil                   -- end of a compound's children
+  | cons (head tail : VTree)
+deriving Repr
+
+inductive RTree where
+  | leaf (r : Res Rendered)
+  | other
+  | nil
+  | cons (head tail : RTree)
+deriving Repr
+
+def renderTree (fmt : String) (sizebase : Nat) : VTree → RTree
+  | .raw v => .leaf (toValueRaw fmt sizebase v)
+  | .other => .other
+  | .nil => .nil
+  | .cons h t => .cons (renderTree fmt sizebase h) (renderTree fmt sizebase t)
+
+/-- the raw leaves in document order -/
+def VTree.leaves : VTree → List DV
+  | .raw v => [v]
+  | .other => []
+  | .nil => []
+  | .cons h t => h.leaves ++ t.leaves
+
+def RTree.leaves : RTree → List (Res Rendered)
+  | .leaf r => [r]
+  | .other => []
+  | .nil => []
+  | .cons h t => h.leaves ++ t.leaves
+
+/-- a compound whose children are the given raw values (what the driver rebuilds from a case line) -/
+def VTree.ofLeaves : List DV → VTree
+  | [] => .nil
+  | v :: vs => .cons (.raw v) (VTree.ofLeaves vs)
+
 end FqModel.ToBits
